@@ -283,6 +283,8 @@ class Lin:
         self.kind = "plain"     # plain | result (came out of a union)
         self.stale = False      # went through deserialize() while in estimation mode
         self.tainted = False    # a violation was already reported on this lineage: consequences are not re-reported
+        self.pe_shaped = False  # union result built from a gadget that never down-sampled but held reservoir items of its
+                                # inputs: the pseudo-exact coercer may have produced it (known findings on the pinned code)
         self.last_tau = None
         self.obs = None
 
@@ -399,6 +401,11 @@ def check_sketch(L, o, bad, i, tag=""):
         L.tainted = True
 
 
+PE_SYMPTOMS = set("union-result-lineage-" + x for x in
+                  ("not-heap-ordered", "sample-lighter-than-tau", "heavy-item-missing", "tau-decreased",
+                   "heavy-sample-without-its-exact-weight"))
+
+
 def valid_weight(x):
     return x == x and x not in (float("inf"), float("-inf")) and x >= 0.0
 
@@ -471,13 +478,13 @@ class C16(Spec):
     def generate(self, rng, tier):
         q = tier == "quick"
         hs = []
-        for _ in range(140 if q else 1500):
+        for _ in range(140 if q else 5000):
             hs.append(gen_single(rng, tier))
-        for _ in range(120 if q else 1500):
+        for _ in range(120 if q else 5000):
             hs.append(gen_union(rng, tier))
-        for _ in range(60 if q else 600):
+        for _ in range(60 if q else 2000):
             hs.append(gen_pseudo_exact(rng, tier))
-        for _ in range(10 if q else 60):
+        for _ in range(10 if q else 200):
             hs.append(gen_malformed(rng, tier))
         return hs
 
@@ -529,6 +536,7 @@ class C16(Spec):
                     continue
                 if out == "throw":
                     key = ("update-throws-after-deserialize" if L.stale else
+                           "union-result-not-heap-ordered" if L.pe_shaped else
                            "update-throws-on-union-result" if L.kind == "result" else "update-throws")
                     if not L.tainted:
                         bad.append((key, "update(%d, %r) threw on a sketch with n=%d k=%d" % (item, wt, L.n, L.k), i))
@@ -545,7 +553,15 @@ class C16(Spec):
                     if L.total >= 2.0 ** 53:
                         L.exact = False
                 tag = "union-result-lineage-" if L.kind == "result" else ""
+                nb = len(bad)
                 check_sketch(L, o, bad, i, tag)
+                if L.pe_shaped:
+                    # the H region of such a result is not observable as H at get_result() time when some of its items
+                    # weigh exactly tau; a malformed H (not heapified / lighter than tau) shows on later updates only
+                    for j in range(nb, len(bad)):
+                        k0, what, idx = bad[j]
+                        if k0 in PE_SYMPTOMS:
+                            bad[j] = ("union-result-not-heap-ordered", "after further updates: %s: %s" % (k0, what), idx)
                 L.obs = o
             elif op in ("copy", "serde"):
                 src, dst = int(hd[1]), int(hd[2])
@@ -633,6 +649,7 @@ class C16(Spec):
                 L.tainted = U.tainted
                 L.n, L.total, L.exact = U.n, U.total, False
                 L.stale = U.stale and o["n"] > o["ns"]
+                L.pe_shaped = U.any_est and U.fed <= U.maxk and o["n"] > o["ns"]
                 check_sketch(L, o, bad, i, "union-result-")
                 L.k = o["k"]
                 L.obs = o
@@ -675,24 +692,41 @@ class C16(Spec):
 SPEC = C16()
 
 CLAIM = dict(
-    text=("Kernel-checked theorems (Rat instance, all streams of positive weights, all k, all draw sequences) about an executable Lean "
-          "model of var_opt_sketch / var_opt_union that follows the code slot by slot (H min-heap sifts, M/R regions, "
-          "grow/downsample/choose_delete_slot, decrease_k_by_1, gadget marks, the three get_result coercers): h + r = min(n, k) and "
-          "samples are inputs; sum of H weights + total_wt_r = sum of input weights, hence adjusted weights and the all-true "
-          "subset sum equal the total; in estimation mode tau never decreases, H entries carry their input weights, peek_min >= tau and "
-          "every input heavier than tau is in H; lb <= estimate <= ub for every predicate given 0 <= lb_frac <= r_true/r <= ub_frac; the "
-          "union keeps n and total weight and returns at most k_result <= max_k unmarked samples; one down-sampling step keeps "
-          "candidate j with probability w_j / tau' (exact interval lengths).  The Float instance of the same definitions reproduces the "
-          "real headers bit for bit on generated histories with hook-supplied draws, and the property oracle runs on every trace."),
-    note=("NOT formalised: the global 'subset-sum estimates are unbiased over all draws' statement (only the one-step identity "
-          "P[keep j]*tau' = w_j is proved; the martingale argument over whole histories is not). Floating-point rounding is not modelled "
-          "in the theorems (integer weights < 2^30 keep plain-sketch totals exact in the correspondence runs; union totals are compared "
-          "to 1e-9). The analytic fact lb_frac <= r_true/r <= ub_frac about bounds_binomial_proportions is a hypothesis "
-          "(vo_subset_bounds_partial) and is checked on traces only. 'Smallest effective k' is read as the k of the returned sketch "
-          "(<= max_k): an exact-mode input contributes all its items, so min k_i of the inputs is not a bound the algorithm has. "
+    text=("Kernel-checked theorems (Rat instance of the model; every configuration, every stream of positive weights, every draw "
+          "sequence, no length bounds) about an executable Lean model of var_opt_sketch / var_opt_union that follows the code slot by "
+          "slot (H min-heap sifts as coded, M/R regions, warm-up, transition, light / heavy r=1 / heavy general update, "
+          "grow/downsample/choose_delete_slot, decrease_k_by_1, gadget marks, merge_items with the weight-correcting R iterator, "
+          "resolve_tau, the three get_result coercers, serialize->deserialize as a state transformer): "
+          "vo_size (update never throws; n counted; h + r = num_samples = min(n,k); H entries are inputs with their weights, R items are "
+          "input items); vo_weight_conserved (sum_H w + total_wt_r = sum of inputs; iterator weights and estimate_subset_sum(true) equal "
+          "the total); vo_heavy_exact (tau never decreases along a stream; every H entry >= tau incl. peek_min; every input heavier "
+          "than tau is in H with its exact weight); vo_subset_bounds_partial (lb <= estimate <= ub for every predicate, given that the "
+          "two fraction bounds bracket r_true/r); vo_one_step_unbiased (exact u-intervals of choose_delete_slot: P[keep j]*tau' = w_j "
+          "for M candidates, tau/tau' for R items); vo_union (no update of a union throws; n = sum n_i; any returned result has that n, "
+          "represents exactly the combined weight, h + r <= k_result <= max_k, no marks); vo_union_wellformed_partial (the result is a "
+          "valid estimation-mode state unless the pseudo-exact mark-moving coercer produced it) with vo_union_wellformed_full_false "
+          "(witness: that coercer returns an H item lighter than tau); vo_serde_update_partial (deserialize(serialize(s)) answers every "
+          "query identically and, in warm-up, keeps accepting updates) with vo_serde_update_full_false (witness: an estimation-mode "
+          "sketch throws on the next update after deserialize). The Float instance of the same definitions reproduces the real headers "
+          "bit for bit (iterator weights, lb/est/ub/total of three predicates, draws consumed) on generated histories with hook-supplied "
+          "draws, and the property oracle (totals, heavy-item inclusion, tau monotone, heap order, bounds order) runs on every trace."),
+    note=("NOT formalised: the global 'subset-sum estimates are unbiased over the sampling randomness' statement about whole histories "
+          "(only the one-step identity vo_one_step_unbiased is proved; the martingale argument is not). Floating-point rounding is not "
+          "modelled in the theorems: two findings exist only in floating point and have no Lean counterpart (union-result-throws, "
+          "update-throws-on-union-result); integer weights < 2^30 keep plain-sketch totals exact in the correspondence runs, union "
+          "totals are compared to 1e-9. The analytic fact lb_frac <= r_true/r <= ub_frac about bounds_binomial_proportions "
+          "(sqrt/exp/pow) is a hypothesis of vo_subset_bounds_partial and is checked on traces only. get_result() 'returns' is a "
+          "hypothesis of vo_union (it can throw for k <= 1 corner cases and in floating point). 'Smallest effective k' is read as the k of "
+          "the returned sketch (<= max_k): an exact-mode input contributes all its items, so min k_i of the inputs is not a bound the "
+          "algorithm has. A change of the heap's tie-breaking is reported as a correspondence divergence (no failing input) although it "
+          "preserves the property: array order of H is observable through the iterator and decides which slot a draw deletes. "
+          "Generator restrictions around open findings: no get_result() on a deserialized estimation-mode union and no reset() of a "
+          "deserialized sketch in the random streams (both are exercised by dedicated witnesses; C16_UNRESTRICTED=1 lifts them). "
           "Open findings on the pinned code (known_findings.json, proposed_fixes/C16-*): update after deserialize() of an "
-          "estimation-mode sketch/union throws (m_ = 1); the pseudo-exact union coercer compares against NaN and does not re-heapify, "
-          "so results can hold H items lighter than tau and later updates throw or evict heavy items; get_result() throws (and leaks) "
-          "for equal-tau inputs with large weights because of an absolute 1e-10 tolerance."),
+          "estimation-mode sketch / union throws (m_ = 1); the pseudo-exact union coercer compares against NaN and does not re-heapify "
+          "(results with H items lighter than tau / not heap ordered; later updates throw or evict heavy items); get_result() throws and "
+          "leaks for equal-tau inputs with large weights (absolute 1e-10 tolerance); update() of a union result can throw because "
+          "total_wt_r_/r_ rounds one ulp above an H weight; decrease_k_by_1 reads uninitialised marks after union deserialize (UBSan); "
+          "reset() after deserialize of an under-full sketch leads to a heap-buffer-overflow (ASan)."),
     technique="Lean 4 invariant proofs over an ops-only numeric class (Rat) + bit-exact differential correspondence (Float) with hook-supplied draws + trace oracle",
     design="DESIGN.md §3 C16")
